@@ -107,8 +107,11 @@ func (s *state) removeTorrent(h core.InfoHash, err error) {
 	complete := ctrl.dispatcher.Complete()
 	if !complete {
 		ctrl.dispatcher.TearDown()
-		s.announceQueue.Eject(h)
 	}
+	// Always eject: the completion event of a dispatcher which completed just
+	// before this removal may still be queued, and a new download of the same
+	// torrent may add it to the announce queue again before that event arrives.
+	s.announceQueue.Eject(h)
 	// The dispatcher may have completed while its completion event is still
 	// queued behind this removal: that event will no longer find the control,
 	// so pending requests are answered here (with success, the blob is cached).
